@@ -19,6 +19,7 @@ import (
 	"path/filepath"
 	"sort"
 	"strings"
+	"time"
 
 	"github.com/emersion/go-webdav"
 	"github.com/emersion/go-webdav/verifharness/davx"
@@ -479,6 +480,36 @@ func (e *Env) Observe(what string, pre davtree.Tree, r davtree.Req, resp Resp, p
 		if resp.Code == 207 {
 			e.checkPropfind(what, pre, r, resp)
 		}
+	case "PUT":
+		if resp.Code/100 == 2 {
+			e.checkPutHeaders(what, r, resp, wit)
+		}
+	}
+}
+
+// checkPutHeaders: what a successful PUT says about the stored file in its
+// entity headers must be true of the file (the statement's "entity headers").
+// Last-Modified: the file's modification time to the second, as an HTTP-date
+// (GMT) - whatever the local time zone of the serving process is.
+func (e *Env) checkPutHeaders(what string, r davtree.Req, resp Resp, wit func() interface{}) {
+	lm := resp.Header.Get("Last-Modified")
+	if lm == "" {
+		return
+	}
+	fi, err := os.Stat(filepath.Join(e.Root, filepath.FromSlash(r.Path)))
+	if err != nil || fi.IsDir() {
+		return
+	}
+	t, perr := http.ParseTime(lm)
+	want := fi.ModTime().UTC().Truncate(time.Second)
+	e.C.Observe("put_entity_headers", "Last-Modified compared with the stored file's mtime", 1)
+	if perr != nil || !strings.HasSuffix(lm, " GMT") || !t.Equal(want) {
+		_, off := time.Now().Zone()
+		cls := "differs"
+		if perr == nil && off != 0 && t.Equal(want.Add(time.Duration(off)*time.Second)) {
+			cls = "shifted-by-the-process-zone-offset"
+		}
+		e.C.Report("PUT|entity-header|Last-Modified|"+cls, fmt.Sprintf("%s: PUT answered Last-Modified %q, the stored file's modification time is %s", what, lm, want.Format(http.TimeFormat)), wit())
 	}
 }
 
